@@ -233,10 +233,17 @@ class ConcatDecompressionHandler(DecompressionBaseHandler, Generic[_DecompressOb
     _decompressor: _DecompressObjT
     # Input a max_length-capped walk stopped short of, fed back on the next call.
     _pending_unused_data: bytes | None = None
+    # True while the current member has been given input but has not ended.
+    _mid_member = False
 
     @abstractmethod
     def _new_decompressor(self) -> _DecompressObjT:
         """Return a decompressor for the next member."""
+
+    @property
+    def eof(self) -> bool:
+        """Return True if the input consumed so far ends on a member boundary."""
+        return not self._mid_member and self._pending_unused_data is None
 
     def _decompress_members(self, first: bytes, max_length: int) -> bytes:
         """Decode the members following the one ``first`` came from."""
@@ -396,6 +403,12 @@ class ZLibDecompressor(ConcatDecompressionHandler[ZLibDecompressObjProtocol]):
         # Only way to know that isal has no further data is checking we get no output
         self._last_empty = result == b""
 
+        # Record it here: a spent decompressor is replaced below.
+        if self._decompressor.eof:
+            self._mid_member = False
+        elif data:
+            self._mid_member = True
+
         # Member ended exactly at chunk boundary — no unused_data, but the
         # next feed_data() call would fail on the spent decompressor.
         # Only reset for gzip; deflate's feed_eof() relies on eof=True to
@@ -419,10 +432,6 @@ class ZLibDecompressor(ConcatDecompressionHandler[ZLibDecompressObjProtocol]):
             or not self._last_empty
             or self._pending_unused_data is not None
         )
-
-    @property
-    def eof(self) -> bool:
-        return self._decompressor.eof
 
 
 class BrotliDecompressor(DecompressionBaseHandler):
@@ -472,6 +481,10 @@ class BrotliDecompressor(DecompressionBaseHandler):
     def data_available(self) -> bool:
         return not self._obj.is_finished() and not self._last_empty
 
+    @property
+    def eof(self) -> bool:
+        return cast(bool, self._obj.is_finished())
+
 
 class ZSTDDecompressor(ConcatDecompressionHandler["ZstdDecompressor"]):
     _unlimited = ZSTD_MAX_LENGTH_UNLIMITED
@@ -515,7 +528,10 @@ class ZSTDDecompressor(ConcatDecompressionHandler["ZstdDecompressor"]):
         # next feed_data() call would fail on the spent decompressor.
         # Prepare a fresh one for the next chunk.
         if self._decompressor.eof:
+            self._mid_member = False
             self._decompressor = self._new_decompressor()
+        elif data:
+            self._mid_member = True
 
         return result
 
